@@ -44,6 +44,7 @@ Record hmeth := {
 
 Record tables := {
   t_routes : list entry;
+  t_derived : list (string * list string);   (* guard names that are functions of atomic facts: name -> conjunction *)
   t_hmeths : list hmeth;
   t_noauth : list string;              (* handler classes with AUTH_ENABLED = False *)
   t_levels : list (string * Z);        (* API function -> level given to @api_call *)
@@ -153,3 +154,38 @@ Definition api_functions (T : tables) : list (string * meth * string) :=
                                  (filter (fun hm => String.eqb (hm_handler hm) (e_handler e)) (t_hmeths T))
                      | _ => []
                      end) (t_routes T).
+
+(* ---- guards as conditions on atomic facts ---------------------------------------------------------------------------- *)
+
+Fixpoint assoc_l (k : string) (l : list (string * list string)) : option (list string) :=
+  match l with
+  | [] => None
+  | (k', v) :: r => if String.eqb k k' then Some v else assoc_l k r
+  end.
+
+(* a guard name is either atomic or defined (core/history.py is_enabled) as a conjunction of atomic facts *)
+Definition expand1 (D : list (string * list string)) (g : string) : list string :=
+  match assoc_l g D with Some atoms => atoms | None => [g] end.
+Definition expand (D : list (string * list string)) (gs : list string) : list string := flat_map (expand1 D) gs.
+
+(* the flag assignment determined by the atomic facts *)
+Definition flags_from (D : list (string * list string)) (at_ : string -> bool) : flags :=
+  fun g => forallb at_ (expand1 D g).
+
+Definition incl_b (a b : list string) : bool := forallb (fun x => str_mem x b) a.
+Definition set_eqb (a b : list string) : bool := incl_b a b && incl_b b a.
+
+(* finite check: every API routing entry is guarded by exactly the conditions the specification gives to its route, every
+   handler method by exactly its method conditions, and no non-API entry sits on an API route's shape *)
+Definition cond_ok (T : tables) : bool :=
+  forallb (fun e =>
+    match e_kind e, route_of_template (e_tmpl e) with
+    | KApi, Some r =>
+        set_eqb (expand (t_derived T) (e_guard e)) (route_condition_spec r)
+        && forallb (fun hm => if String.eqb (hm_handler hm) (e_handler e)
+                              then set_eqb (expand (t_derived T) (hm_pre hm)) (method_condition_spec r (hm_meth hm))
+                              else true) (t_hmeths T)
+    | KApi, None => false
+    | _, Some _ => false
+    | _, None => true
+    end) (t_routes T).
